@@ -1,6 +1,9 @@
 package z80
 
-import "context"
+import (
+	"context"
+	"time"
+)
 
 // C13 — Run honours cancellation.  Sequential environment model: the watcher
 // goroutine is run to completion at the moment the context is cancelled (any
@@ -34,11 +37,18 @@ func (m *vCancelDev) Get(addr uint16) uint8 {
 }
 
 // at: -1 = cancelled before the call; 0..k-1 = cancelled during instruction `at`; k = max Steps
-// bp: 0 = BreakPoints nil, 1 = arbitrary set with <= 2 members
+// bp: 0 = BreakPoints nil, 1 = arbitrary set with <= 2 members, 2 = nil but the
+// context also carries a (far) deadline and is cancelled early
 func VC13Script(at, k, bp int) {
 	var s States
 	vHavoc(&s, "s")
-	ctx, cancel := context.WithCancel(context.Background())
+	var ctx context.Context
+	var cancel context.CancelFunc
+	if bp == 2 {
+		ctx, cancel = context.WithTimeout(context.Background(), time.Hour)
+	} else {
+		ctx, cancel = context.WithCancel(context.Background())
+	}
 	d1 := &vCancelDev{at: at, cancel: cancel}
 	d1.bound = k
 	d2 := &vScript{bound: k}
